@@ -81,3 +81,64 @@ func After(d time.Duration) <-chan time.Time {
 	}
 	return vsched.NewTicker(d, true).C
 }
+
+// Timer mirrors time.Timer.
+type Timer struct {
+	C    <-chan time.Time
+	real *time.Timer
+	v    *vsched.Ticker
+}
+
+// NewTimer creates a one-shot timer fired only by the harness.
+func NewTimer(d time.Duration) *Timer {
+	if !vsched.Active() {
+		if vsched.Aborting() {
+			return &Timer{C: make(chan time.Time)}
+		}
+		r := time.NewTimer(d)
+		return &Timer{C: r.C, real: r}
+	}
+	v := vsched.NewTicker(d, true)
+	return &Timer{C: v.C, v: v}
+}
+
+// AfterFunc registers f to run as a task of its own when the harness fires the timer.
+func AfterFunc(d time.Duration, f func()) *Timer {
+	if !vsched.Active() {
+		if vsched.Aborting() {
+			return &Timer{}
+		}
+		return &Timer{real: time.AfterFunc(d, f)}
+	}
+	v := vsched.NewTicker(d, true)
+	v.F = f
+	return &Timer{v: v}
+}
+
+// Stop prevents the timer from firing; it reports whether the call stopped it before it fired.
+func (t *Timer) Stop() bool {
+	if t.real != nil {
+		return t.real.Stop()
+	}
+	if t.v != nil {
+		was := !t.v.Stopped && t.v.Fired == 0
+		t.v.Stop()
+		return was
+	}
+	return false
+}
+
+// Reset re-arms the timer (controlled mode: it may be fired once more).
+func (t *Timer) Reset(d time.Duration) bool {
+	if t.real != nil {
+		return t.real.Reset(d)
+	}
+	if t.v != nil {
+		was := !t.v.Stopped && t.v.Fired == 0
+		t.v.Stopped = false
+		t.v.Fired = 0
+		t.v.D = d
+		return was
+	}
+	return false
+}
